@@ -7,6 +7,7 @@ import (
 	"fmt"
 	"math/big"
 	"reflect"
+	"unicode/utf8"
 
 	"github.com/google/uuid"
 	"github.com/uptrace/bun"
@@ -245,6 +246,9 @@ func (ctrl *DefaultController) Import(ctx context.Context, stream chan ledger.Lo
 	}
 
 	for log := range stream {
+		if err := validateImportedLog(log); err != nil {
+			return NewErrImport(err)
+		}
 		if lastLogID != nil && *log.ID <= *lastLogID {
 			return NewErrImport(fmt.Errorf("log %d already exists", *log.ID))
 		}
@@ -281,6 +285,82 @@ func (ctrl *DefaultController) Import(ctx context.Context, stream chan ledger.Lo
 	}
 
 	return err
+}
+
+// validateImportedLog checks that a log received from a client carries everything the
+// import dereferences afterward (the stream is decoded from untrusted JSON, in which
+// any field can be missing or null).
+func validateImportedLog(log ledger.Log) error {
+	if log.ID == nil {
+		return errors.New("log without id")
+	}
+	if n := utf8.RuneCountInString(log.IdempotencyKey); n > MaxIdempotencyKeyLength {
+		return fmt.Errorf("log %d: idempotency key too long", *log.ID)
+	}
+	validateTransaction := func(name string, tx ledger.Transaction) error {
+		if tx.ID == nil {
+			return fmt.Errorf("log %d: %s without id", *log.ID, name)
+		}
+		if len(tx.Postings) == 0 {
+			return fmt.Errorf("log %d: %s without postings", *log.ID, name)
+		}
+		for i, posting := range tx.Postings {
+			if posting.Amount == nil {
+				return fmt.Errorf("log %d: posting %d of %s without amount", *log.ID, i, name)
+			}
+		}
+		// as serialized, a transaction derives its pre commit volumes from the post commit ones
+		for _, volumes := range []ledger.PostCommitVolumes{tx.PostCommitVolumes, tx.PostCommitEffectiveVolumes} {
+			if len(volumes) == 0 {
+				continue
+			}
+			for account, volumesByAssets := range volumes {
+				for asset, v := range volumesByAssets {
+					if v.Input == nil || v.Output == nil {
+						return fmt.Errorf("log %d: incomplete volumes of %s for %s/%s", *log.ID, name, account, asset)
+					}
+				}
+			}
+			for i, posting := range tx.Postings {
+				for _, account := range []string{posting.Source, posting.Destination} {
+					if _, ok := volumes[account][posting.Asset]; !ok {
+						return fmt.Errorf("log %d: volumes of %s do not cover posting %d", *log.ID, name, i)
+					}
+				}
+			}
+		}
+		return nil
+	}
+	validateTarget := func(targetType string, targetID any) error {
+		ok := true
+		switch targetType {
+		case ledger.MetaTargetTypeTransaction:
+			_, ok = targetID.(uint64)
+		case ledger.MetaTargetTypeAccount:
+			_, ok = targetID.(string)
+		}
+		if !ok {
+			return fmt.Errorf("log %d: invalid target id for target type %s", *log.ID, targetType)
+		}
+		return nil
+	}
+	switch payload := log.Data.(type) {
+	case ledger.CreatedTransaction:
+		return validateTransaction("transaction", payload.Transaction)
+	case ledger.RevertedTransaction:
+		if err := validateTransaction("reverted transaction", payload.RevertedTransaction); err != nil {
+			return err
+		}
+		if payload.RevertedTransaction.RevertedAt == nil {
+			return fmt.Errorf("log %d: reverted transaction without revert date", *log.ID)
+		}
+		return validateTransaction("revert transaction", payload.RevertTransaction)
+	case ledger.SavedMetadata:
+		return validateTarget(payload.TargetType, payload.TargetID)
+	case ledger.DeletedMetadata:
+		return validateTarget(payload.TargetType, payload.TargetID)
+	}
+	return nil
 }
 
 func (ctrl *DefaultController) importLog(ctx context.Context, store Store, log ledger.Log) error {
